@@ -4,7 +4,7 @@ cd /verif
 out=/verif/seeded/RESULTS.txt
 : > $out
 for id in $(ls seeded | grep '^C'); do
-  prop=$id
+  prop=${id%%_*}
   if git -C /repo apply --check /verif/seeded/$id/patch.diff 2>/dev/null; then
     tools/try_seed.sh $id $prop quick > /tmp/sm_$id.txt 2>&1
     v=$(grep -c '^VIOLATION' /tmp/try_${id}_${prop}.out); nf=$(grep -c 'no-failing-input-found' /tmp/try_${id}_${prop}.out)
